@@ -6,6 +6,7 @@ import (
 	"context"
 	"encoding/json"
 	"fmt"
+	"io"
 	"runtime"
 	"sort"
 	"sync"
@@ -40,6 +41,8 @@ type ccCase struct {
 	Keys       int      `json:"keys"`
 	Progs      [][]ccOp `json:"progs"`
 	StallUs    []int    `json:"stall_us,omitempty"` // the harness holds the policy lock for these intervals while the programs run
+	Race       bool     `json:"race,omitempty"`     // C19: listener installed, Wait/SaveCache/Close/hybrid operations enabled
+	Hybrid     bool     `json:"hybrid,omitempty"`
 }
 
 type ccRec struct {
@@ -168,6 +171,9 @@ type ccRun struct {
 	ldIvs  map[int64][2]int64 // loader value -> [start, end] stamps
 	seqs   []int64
 	rangeN atomic.Int64
+	// C19: extra operations (Wait, SaveCache, Close, hybrid Get/Delete) are enabled
+	raceMode bool
+	hybrid   bool
 }
 
 func (r *ccRun) doOp(g int, op ccOp) {
@@ -249,7 +255,30 @@ func (r *ccRun) doOp(g int, op ccOp) {
 		r.s.Stats()
 		return
 	case "wait":
-		return // (Wait from several goroutines at once is C20's subject)
+		if r.raceMode {
+			r.s.Wait()
+		}
+		return
+	case "save":
+		if r.raceMode {
+			_ = r.s.Persist(1, io.Discard)
+		}
+		return
+	case "close":
+		if r.raceMode {
+			r.s.Close()
+		}
+		return
+	case "hget":
+		if r.raceMode && r.hybrid {
+			_, _, _ = r.s.GetWithSecodary(op.K)
+		}
+		return
+	case "hdel":
+		if r.raceMode && r.hybrid {
+			_ = r.s.DeleteWithSecondary(op.K)
+		}
+		return
 	default:
 		return
 	}
@@ -262,7 +291,19 @@ func execConc(c ccCase, x *verifkit.Ctx, lin, counters bool) (fail *verifkit.Fai
 	}
 	vkRealTime()
 	r := &ccRun{c: c, ldIvs: map[int64][2]int64{}}
-	r.s = NewStore[int, int64](&StoreOptions[int, int64]{MaxSize: int64(c.MaxSize), EntryPool: c.Pool, Doorkeeper: c.Doorkeeper})
+	opts := &StoreOptions[int, int64]{MaxSize: int64(c.MaxSize), EntryPool: c.Pool, Doorkeeper: c.Doorkeeper}
+	if c.Race {
+		r.raceMode = true
+		var notified atomic.Int64
+		opts.Listener = func(k int, v int64, reason RemoveReason) { notified.Add(v&1 + int64(reason)) }
+		if c.Hybrid {
+			r.hybrid = true
+			opts.SecondaryCache = NewSimpleMapSecondary[int, int64]()
+			opts.Workers = 2
+			opts.Probability = 1
+		}
+	}
+	r.s = NewStore[int, int64](opts)
 	defer r.s.Close()
 	if c.Loading {
 		r.ls = NewLoadingStore(r.s)
@@ -549,5 +590,77 @@ func TestVerifC16(t *testing.T) {
 		Exec:        func(c ccCase, x *verifkit.Ctx) *verifkit.Failure { return execConc(c, x, false, true) },
 		Rule:        "C16: same executor with 1..16 goroutines x 10..300 operations; each goroutine counts its own Get calls and hits; after the join Stats must add up, and after Wait Len, Range (complete, no duplicates, current values, stops after j) and EstimatedSize are compared with a white-box snapshot of the shard maps; non-trivial = at least 4 goroutines and 200 operations",
 		Assumptions: append([]string{"loading cache: every Get returns a value, so Hits is compared exactly only for a single client; otherwise Hits+Misses == Gets and Misses >= loader invocations"}, ccAssumptions...),
+	})
+}
+
+// C19 — no data races in the default configuration: the same executor built
+// with -race, entry pool off, removal listener installed, plus Wait, SaveCache,
+// Close and (hybrid) secondary-cache operations in the programs.
+func genC19(t *rapid.T) ccCase {
+	c := genConc(false)(t)
+	c.Pool = false
+	c.Race = true
+	c.Hybrid = !c.Loading && rapid.IntRange(0, 2).Draw(t, "hybrid") == 0
+	extra := rapid.Custom(func(t *rapid.T) ccOp {
+		k := rapid.IntRange(0, c.Keys-1).Draw(t, "k")
+		switch rapid.IntRange(0, 9).Draw(t, "xop") {
+		case 0, 1:
+			return ccOp{Op: "save"}
+		case 2, 3:
+			return ccOp{Op: "wait"}
+		case 4:
+			return ccOp{Op: "range"}
+		case 5:
+			return ccOp{Op: "size"}
+		case 6, 7:
+			return ccOp{Op: "hget", K: k}
+		case 8:
+			return ccOp{Op: "hdel", K: k}
+		default:
+			return ccOp{Op: "len"}
+		}
+	})
+	// sprinkle the extra operations over the programs; one program may end with Close
+	for g := range c.Progs {
+		xs := rapid.SliceOfN(extra, 0, 6).Draw(t, "extras")
+		for _, xo := range xs {
+			pos := rapid.IntRange(0, len(c.Progs[g])).Draw(t, "pos")
+			p := append([]ccOp{}, c.Progs[g][:pos]...)
+			p = append(p, xo)
+			c.Progs[g] = append(p, c.Progs[g][pos:]...)
+		}
+	}
+	if rapid.IntRange(0, 2).Draw(t, "close") == 0 {
+		g := rapid.IntRange(0, len(c.Progs)-1).Draw(t, "closer")
+		pos := rapid.IntRange(0, len(c.Progs[g])).Draw(t, "closePos")
+		p := append([]ccOp{}, c.Progs[g][:pos]...)
+		p = append(p, ccOp{Op: "close"})
+		c.Progs[g] = append(p, c.Progs[g][pos:]...)
+	}
+	return c
+}
+
+func TestVerifC19(t *testing.T) {
+	verifkit.Run(t, verifkit.Spec[ccCase]{
+		ID: "C19", Gen: genC19, Nondet: true,
+		Exec: func(c ccCase, x *verifkit.Ctx) *verifkit.Failure {
+			f := execConc(c, x, false, false)
+			conflicts := 0
+			for _, p := range c.Progs {
+				for _, op := range p {
+					switch op.Op {
+					case "save", "range", "close", "wait":
+						conflicts++
+					}
+				}
+			}
+			x.ClassIf(c.Hybrid, "hybrid")
+			if len(c.Progs) >= 2 && conflicts > 0 {
+				x.NonTrivial()
+			}
+			return f
+		},
+		Rule:        "C19: the C01 program generator with the entry pool off and a removal listener installed, on plain, loading and hybrid stores, with SaveCache, Wait, Range, Len, EstimatedSize, Stats, hybrid Get/Delete and (in a third of the cases) a Close sprinkled into the goroutine programs; the binary is built with -race and any 'WARNING: DATA RACE' in its output is the violation; non-trivial = at least two goroutines and at least one of SaveCache / Range / Close / Wait in the programs",
+		Assumptions: []string{"the race detector only sees the interleavings that are executed", "the harness's own shared state is per-goroutine or atomic/mutex protected"},
 	})
 }
